@@ -120,7 +120,7 @@ def check_fn(prop, cfg, tier, seed, ncases_override=None):
     for pname, opt in passes:
         logdir = os.path.join(logroot, pname); os.makedirs(logdir); logdirs.append((pname, logdir))
         env = {"TSAN_OPTIONS": tsan_options(logdir) + opt, "VF_TSAN_LOGDIR": logdir}
-        r = check.run_cases(prop, variant, n, tier, seed, timeout=cfg.get("timeout", 45), chunk=1, extra_args=cfg.get("args", ()), extra_env=env)
+        r = check.run_cases(prop, variant, n, tier, seed, timeout=cfg.get("timeout", 45) * (3 if tier == "thorough" else 1), chunk=1, extra_args=cfg.get("args", ()), extra_env=env)
         for v in r.violations: v["pass"] = pname
         if res is None: res = r
         else:
